@@ -87,6 +87,17 @@ func generate(w *mon.W) {
 	}
 	rec(nil)
 
+	// wide constructs: every list-like construct with 1..17 and near-power-of-two many elements
+	for _, kind := range gen.WideKinds {
+		for _, n := range gen.WideSizes {
+			if n > 130 && w.Quick() {
+				continue
+			}
+			prog := gen.Wide(kind, n)
+			c := &Case{Prog: prog, Layouts: 2, Seed: int64(n)}
+			w.Do(fmt.Sprint("wide|", kind, "|", n), func(r *mon.R) { Check(c, r) })
+		}
+	}
 	// (b)/(c) random programs
 	rng := gen.RNG(w.Seed, "c07")
 	g := &gen.Syn{Rng: rng}
